@@ -111,8 +111,13 @@ fn float_text(rng: &mut Rng, x: f32) -> String {
 
 const HWS: &[u8] = b"  \t\r\x0c";
 
+/// Set per file by `gen_wellformed`: one file in eight has very long lines (hundreds to thousands of
+/// bytes of indentation, padding or comment text) — line-length assumptions of a reader show only there.
+static LONG_LINES: std::sync::atomic::AtomicBool = std::sync::atomic::AtomicBool::new(false);
+
 fn hws(rng: &mut Rng, min: usize) -> Vec<u8> {
-    let n = if rng.chance(3, 4) { min } else { min + rng.below(4) as usize };
+    let long = LONG_LINES.load(std::sync::atomic::Ordering::Relaxed) && rng.chance(1, 6);
+    let n = if long { 150 + rng.below(1400) as usize } else if rng.chance(3, 4) { min } else { min + rng.below(4) as usize };
     (0..n).map(|_| *rng.pick(HWS)).collect()
 }
 
@@ -206,10 +211,13 @@ fn print_obj(rng: &mut Rng, m: &GenMesh, lay: &Layout) -> Vec<u8> {
             let mut l = hws(rng, 0);
             if rng.bool() {
                 l.push(b'#');
-                let n = rng.below(12);
+                let long = LONG_LINES.load(std::sync::atomic::Ordering::Relaxed) && rng.bool();
+                let n = if long { 300 + rng.below(2500) } else { rng.below(12) };
                 for _ in 0..n {
                     let b = match rng.below(4) { 0 => rng.below(256) as u8, 1 => b' ', _ => b'a' + rng.below(26) as u8 };
                     if b != b'\n' { l.push(b) }
+                    // text that would be an item if the comment were cut: " v 9 9 9 ", " f 1 1 1 "
+                    if long && rng.chance(1, 40) { l.extend(if rng.bool() { &b" v 9 9 9 "[..] } else { &b" f 1 1 1 "[..] }) }
                 }
             }
             lines.push(l);
@@ -234,6 +242,8 @@ fn print_obj(rng: &mut Rng, m: &GenMesh, lay: &Layout) -> Vec<u8> {
 
 fn gen_wellformed(rng: &mut Rng, big: bool) -> (String, Vec<u8>, GenMesh) {
     let m = gen_mesh(rng, big);
+    let long = rng.chance(1, 8);
+    LONG_LINES.store(long, std::sync::atomic::Ordering::Relaxed);
     let form = rng.below(5);
     let lay = Layout {
         form,
@@ -245,12 +255,14 @@ fn gen_wellformed(rng: &mut Rng, big: bool) -> (String, Vec<u8>, GenMesh) {
         n_norm: if form >= 2 { 1 + rng.below(4) as usize } else { rng.below(2) as usize },
     };
     let bytes = print_obj(rng, &m, &lay);
+    LONG_LINES.store(false, std::sync::atomic::Ordering::Relaxed);
     let mode = format!(
-        "wf-form{}-{}{}{}",
+        "wf-form{}-{}{}{}{}",
         lay.form,
         ["vfirst", "ffirst", "mixed"][lay.order as usize],
         if lay.crlf { "-crlf" } else { "" },
-        if lay.noise { "-noise" } else { "" }
+        if lay.noise { "-noise" } else { "" },
+        if long && lay.noise { "-longlines" } else { "" }
     );
     (mode, bytes, m)
 }
